@@ -377,8 +377,16 @@ def compare(conv: Conv, real, reply: LeanReply, with_expression: bool = True) ->
     try:
         if not same(conv.rebuild(reply.intensity), real.intensity):
             diffs.append("intensity")
-        if with_expression and not same(conv.rebuild(reply.expr), real.expression):
-            diffs.append("expression")
+        # the derived `expression` enters the model only through its free symbols (its tree is re-derived and
+        # re-evaluated by SymPy, e.g. Abs(conjugate(x)) left by a substitution collapses when rebuilt, so
+        # structural equality of that tree is not a property of rename_symbols)
+        import sympy as sp
+
+        lean_free = {conv.symbol_of(t) for t in re.findall(r"\(s ([^\s()]+)\)", reply.expr)}
+        real_free = {x for x in real.expression.free_symbols if isinstance(x, sp.Symbol)}
+        if (with_expression and lean_free != real_free) or not real_free <= lean_free:
+            diffs.append(f"expression free symbols: only real {sorted(map(str, real_free - lean_free))[:4]} "
+                         f"only model {sorted(map(str, lean_free - real_free))[:4]}")
         ra = list(real.amplitudes.items())
         if [str(k) for k, _ in ra] != [ks for ks, _, _ in reply.amps]:
             diffs.append("amplitudes: key order")
